@@ -58,14 +58,51 @@ def client(args):
         out["handshake"] = "ok"          # from this side's point of view
         out["version"] = s.version()
         if args.send:
-            s.sendall(bytes.fromhex(args.send))
-        data, end = read_some(s, args.wait)
+            try:
+                send_chunked(s, bytes.fromhex(args.send), args)
+            except (ssl.SSLError, OSError) as e:
+                # the peer closed while we were still sending (it may do so after a malformed header):
+                # what it sent before is still readable
+                out["send_error"] = type(e).__name__ + ":" + str(e)[:120]
+        if args.read_all:
+            data, end = read_all(s, args.wait, args.expect_bytes)
+        else:
+            data, end = read_some(s, args.wait)
         out["reply_hex"] = data.hex(); out["read_end"] = end
         try: s.close()
         except Exception: pass
     except (ssl.SSLError, OSError) as e:
         out["error"] = type(e).__name__ + ":" + str(e)[:160]
     print(json.dumps(out))
+
+def send_chunked(s, data, args):
+    """every sendall() is at least one TLS record; the gap makes the peer see separate reads"""
+    sizes = [int(x) for x in args.chunks.split(",")] if args.chunks else []
+    if not sizes:
+        s.sendall(data); return
+    i = k = 0
+    while i < len(data):
+        n = max(1, sizes[k % len(sizes)]); k += 1
+        s.sendall(data[i:i + n]); i += n
+        if args.gap_ms > 0:
+            time.sleep(args.gap_ms / 1000.0)
+
+def read_all(sock, idle, expect):
+    """read until EOF, `idle` seconds of silence, or `expect` bytes"""
+    sock.settimeout(idle)
+    data = b""
+    try:
+        while True:
+            if expect and len(data) >= expect:
+                return data, "expected"
+            chunk = sock.recv(4096)
+            if not chunk:
+                return data, "eof"
+            data += chunk
+    except socket.timeout:
+        return data, "timeout"
+    except (ssl.SSLError, OSError) as e:
+        return data, "error:" + type(e).__name__ + ":" + str(e)[:120]
 
 def raw(args):
     out = {"role": "raw", "reply_hex": "", "read_end": None, "error": None}
@@ -114,10 +151,15 @@ def server(args):
         out["handshake"] = "ok"; out["version"] = s.version()
         data, end = read_some(s, args.wait)
         out["request_hex"] = data.hex(); out["read_end"] = end
-        if end == "frame":
-            s.sendall(modbus_reply(data))
+        served = 0
+        while end == "frame":
+            send_chunked(s, modbus_reply(data), args)
+            served += 1
             # keep the connection until the peer is done
-            read_some(s, args.wait)
+            data, end = read_some(s, args.wait)
+            if served >= args.serve:
+                break
+        out["served"] = served
         try: s.close()
         except Exception: pass
     except (ssl.SSLError, OSError) as e:
@@ -132,6 +174,9 @@ def main():
     p.add_argument("--min", default="1.2"); p.add_argument("--max", default="1.3")
     p.add_argument("--servername"); p.add_argument("--send"); p.add_argument("--wait", type=float, default=2.0)
     p.add_argument("--accept-wait", type=float, default=10.0)
+    p.add_argument("--chunks", default=""); p.add_argument("--gap-ms", type=float, default=2.0)
+    p.add_argument("--read-all", action="store_true"); p.add_argument("--expect-bytes", type=int, default=0)
+    p.add_argument("--serve", type=int, default=1)
     a = p.parse_args()
     {"client": client, "server": server, "raw": raw}[a.mode](a)
 
